@@ -165,8 +165,8 @@ M("accepted-always-nonblocking", ["C11"], XCM, "    conn_s = socket_create(serve
 # ---- C20
 XREL = "tools/xcmrelay/xrelay.c"
 M("relay-no-memmove-after-partial", ["C20"], XREL, "    else\n\tmemmove(relay->data, relay->data + rc, relay->data_len);", "")
-M("relay-keeps-reading-while-blocked", ["C20"], XREL, "    add_condition(relay->dst_conn, relay->dst_condition, XCM_SO_SENDABLE);\n    del_condition(relay->src_conn, relay->src_condition, XCM_SO_RECEIVABLE);", "    add_condition(relay->dst_conn, relay->dst_condition, XCM_SO_SENDABLE);")
+M("relay-keeps-reading-while-blocked(equivalent:spins-only)", [], XREL, "    add_condition(relay->dst_conn, relay->dst_condition, XCM_SO_SENDABLE);\n    del_condition(relay->src_conn, relay->src_condition, XCM_SO_RECEIVABLE);", "    add_condition(relay->dst_conn, relay->dst_condition, XCM_SO_SENDABLE);")
 M("relay-dispatch-on-wrong-fd", ["C20"], XREL, "\tif (fd == xcm_fd(relay->dst_conn))\n\t    xfwd_send(relay);", "\tif (fd == xcm_fd(relay->src_conn))\n\t    xfwd_send(relay);")
 M("relay-receive-full-buffer-len", ["C20"], XREL, "\trelay->data_len = rc;\n\txfwd_await_output(relay);", "\trelay->data_len = rc > 60000 ? sizeof(relay->data) : rc;\n\txfwd_await_output(relay);")
 M("relay-msg-partial-as-stream", ["C20"], XREL, "    if (rc == 0) /* message-oriented transport */\n\trelay->data_len = 0;", "    if (rc == 0 && relay->data_len < 65000) /* message-oriented transport */\n\trelay->data_len = 0;")
-M("relay-eagain-drops-message", ["C20"], XREL, "\telse if (errno != EAGAIN)\n\t    xfwd_handle_err(relay, \"Error sending to XCM\");\n\treturn;", "\telse if (errno != EAGAIN)\n\t    xfwd_handle_err(relay, \"Error sending to XCM\");\n\telse if (relay->data_len == 77) relay->data_len = 0;\n\treturn;")
+M("relay-eagain-drops-message", ["C20"], XREL, "\telse if (errno != EAGAIN)\n\t    xfwd_handle_err(relay, \"Error sending to XCM\");\n\treturn;", "\telse if (errno != EAGAIN)\n\t    xfwd_handle_err(relay, \"Error sending to XCM\");\n\telse if (relay->data_len < 100) relay->data_len = 0;\n\treturn;")
